@@ -45,6 +45,9 @@
       `reader.read_exact(&mut dst)` reads `dst.len()` bytes; `io::Error::new(..)` is the one-point `IoError`;
       `const N: usize` generic parameters are explicit arguments; `i32` values are `Int`s that are only produced by
       `i32::from_le_bytes` and passed on;
+    * `VecDeque<T>` is a `List T` (`push_back` appends, `pop_front` takes the head); `&mut uN` parameters are threaded
+      through like the cursors (returned with the result; `*p` reads / writes the current value);
+      `while let PAT = e { … }` evaluates `e` at the start of every round (fuelled like `while`);
     * `std::time::Duration` is a `Nat` of nanoseconds (`Duration::MAX` as in std; comparison / copy only);
       `std::net::SocketAddr` is the inductive `SocketAddr` whose `==` is structural; `Box<T>` is `T`;
       `==` / `!=` on byte arrays, table-mapped types and selected structs/enums is equality of the representation
@@ -204,6 +207,9 @@ def div (_w a b : Nat) (site : String) : Exec ε ρ Nat :=
 /-- `a % b` (panics on zero) -/
 def rem (_w a b : Nat) (site : String) : Exec ε ρ Nat :=
   if b = 0 then .panic site else .val (a % b)
+/-- `a.div_ceil(b)` (panics on zero; no overflow: `a / b + (a % b > 0) as uW`) -/
+def div_ceil (_w a b : Nat) (site : String) : Exec ε ρ Nat :=
+  if b = 0 then .panic site else .val (a / b + (if a % b > 0 then 1 else 0))
 /-- `a << n`: panics when `n ≥ w`; bits shifted out are dropped -/
 def shl (w a n : Nat) (site : String) : Exec ε ρ Nat :=
   if n < w then .val ((a <<< n) % 2 ^ w) else .panic site
